@@ -484,3 +484,9 @@ def r_sib_r_c17_8(ctx):
 def r_sib_r_c17_9(ctx):
     from .c20 import r1 as jar_histories
     jar_histories(ctx)
+
+
+@rule("R-C17-10", min_instances=2, title="trace logging adds no exception of its own on peer-controlled bytes (frame text rendered for the log is never strictly decoded)")
+def r_sib_r_c17_10(ctx):
+    from .c01 import r8 as trace_equivalence
+    trace_equivalence(ctx)
